@@ -26,6 +26,7 @@ sets = [
                                                    "asin", "acos", "atan", "atan2", "float_fractional_part",
                                                    "float_integer_part", "round"]])),
     ("C20", lambda: prolog.replay_string_suffix_compare([])),
+    ("C13", lambda: prolog.replay_term_order([])),
 ]
 only = sys.argv[1:]
 bad = 0
